@@ -13,11 +13,15 @@ def gen_config(rng, tier):
   s = {'USE_FLOW_CONTROL': True}
   if rng.random() < 0.3:
     s['PICKLE_RECEIVER_MAX_LENGTH'] = rng.choice([4096, 65536])
+  ig.listener_knobs(rng, s, limits=True)
   return {'daemon': 'cache', 'settings': s, 'files': {}}
 
 
 def cfg_sig(cfg):
-  return 'maxlen=%s' % cfg['settings'].get('PICKLE_RECEIVER_MAX_LENGTH', 'default')
+  s = cfg['settings']
+  return 'maxlen=%s maxconn=%s idle=%s log=%s%s' % (
+    s.get('PICKLE_RECEIVER_MAX_LENGTH', 'default'), s.get('MAX_RECEIVER_CONNECTIONS', 'inf'),
+    s.get('METRIC_CLIENT_IDLE_TIMEOUT'), int(s['LOG_LISTENER_CONN_SUCCESS']), int(s['LOG_LISTENER_CONN_LOST']))
 
 
 def gen_plan(rng, cfg, tier):
@@ -33,7 +37,16 @@ def gen_plan(rng, cfg, tier):
     clients.append(ig.build_tcp_client(rng, 'pickle', rng.randint(1, 8), rate, allow_close=True, maxlen=mx))
   for _ in range(nudp):
     clients.append(ig.build_udp_client(rng, rng.randint(1, 5), rate))
-  return {'prop': PROP, 'clients': clients, 'steps': ig.gen_steps(rng, clients)}
+  extra = []
+  if rng.random() < 0.4:
+    # quiet periods (idle timers run) between the segments
+    for _ in range(rng.choice([1, 1, 2])):
+      extra.append(['advance', rng.choice([4.0, 6.0, 29.0, 31.0])])
+  plan = {'prop': PROP, 'clients': clients, 'steps': ig.gen_steps(rng, clients, extra)}
+  # connections that arrive while others are open (the limit may hold them in the backlog)
+  plan['late_connect'] = rng.random() < 0.5
+  plan['finish_reset'] = [i for i in range(len(clients)) if rng.random() < 0.25]
+  return plan
 
 
 def nontrivial(res):
